@@ -37,6 +37,31 @@ def handle : List String → String
         what ++ " " ++ wher
       | none => "unknown-dial-shape"
     | none => "bad-op"
+  -- `faultx <query hex> <flag bytes of the UDP reply, hex> <ans|fail> <failed sends> <id a dead socket assigns>`:
+  -- the buffer-threading model; whether the UDP side only reads the query is read from the source.
+  | ["faultx", qh, fl, mode, nfail, qid] =>
+    match Hex.decode qh, Hex.decode fl with
+    | some q, some flags =>
+      let n := nfail.toNat!
+      let k := qid.toNat!
+      let dead : List Model.C17.Attempt := (List.range n).map fun i => ⟨UInt8.ofNat ((k + i) / 256), UInt8.ofNat (k + i), false⟩
+      let atts := dead ++ [⟨0, 0, true⟩]
+      let srv : Bytes → Except Nat Bytes := fun w => .ok (w.take 2 ++ flags ++ [0x55])
+      let tcp : Bytes → Except Nat Bytes := fun b => if mode == "ans" then .ok (b.take 2 ++ [0x80, 0x54]) else .error 1
+      let ro := Gen.Facts.c17UdpSideReadsQueryOnly == some true
+      let (res, frame, buf) := Model.C17.exchangeBuf ro srv tcp atts q
+      let what := match res, frame with
+        | .ok _, some _ => "tcp"
+        | .ok _, none => "udp"
+        | .error _, _ => "err"
+      let tcpq := match frame with
+        | none => "-"
+        | some f => Hex.showBool (f == q)
+      let idok := match res with
+        | .ok r => Hex.showBool (Model.C17.idOf r == Model.C17.idOf q)
+        | .error _ => "-"
+      what ++ " tcpq=" ++ tcpq ++ " buf=" ++ Hex.showBool (buf == q) ++ " id=" ++ idok
+    | _, _ => "bad-op"
   | _ => "bad-op"
 
 end Driver.C17
